@@ -254,6 +254,9 @@ fn main() {
         }
     };
     may::config().set_workers(a.workers);
+    // harness actors format strings, log events and unwind (cancel / panic faults) on coroutine stacks:
+    // the default 32 KiB is too tight for that (a stack overflow ends the process with exit(1))
+    may::config().set_stack_size(0x8000);
     if let Some(c) = def.pool_cap {
         may::config().set_pool_capacity(c);
     }
@@ -384,7 +387,19 @@ fn main() {
                     continue;
                 }
                 reached.push(s);
-                for k in 1..=h.min(a.k) {
+                // the first K hits, plus up to K hits sampled from the rest of the execution: windows
+                // of hit-rich sites (yield, poll loop, queue steps) late in a scenario are reached too
+                let mut ks: Vec<usize> = (1..=h.min(a.k)).collect();
+                if h > a.k && a.k > 0 {
+                    let mut kr = Rng::new(sseed ^ ((s as u64) << 20) ^ 0x5EED);
+                    for _ in 0..a.k {
+                        let k = a.k + 1 + kr.below((h - a.k) as u64) as usize;
+                        if !ks.contains(&k) {
+                            ks.push(k);
+                        }
+                    }
+                }
+                for k in ks {
                     let mut flags = 0;
                     let mut us = a.stall_us;
                     if def.fire {
